@@ -13,6 +13,10 @@ case $VARIANT in
   plain) SAN="";;
 esac
 mkdir -p $B/sim
-clang++ -std=c++17 -O1 -g $SAN -I$B -I$REPO/lib -I$REPO -DHAVE_CONFIG_H -D_GNU_SOURCE -w -c $ROOT/tsim/tsim.cpp -o $B/sim/tsim.o
+CSAN="$SAN"
+# under TSan the simulator itself is NOT instrumented (it must add no happens-before edges and its own bookkeeping is
+# serialised by construction); only lib/async and lib/port are, and the modelled sync objects are annotated
+if [ "$VARIANT" = tsan ]; then CSAN="-DTSIM_TSAN"; fi
+clang++ -std=c++17 -O1 -g $CSAN -I$B -I$REPO/lib -I$REPO -DHAVE_CONFIG_H -D_GNU_SOURCE -w -c $ROOT/tsim/tsim.cpp -o $B/sim/tsim.o
 clang++ $SAN -o $B/sim/tsim $B/sim/tsim.o $B/lib/async/libasync.a $B/lib/port/libport.a -lpthread -ldl
 echo $B/sim/tsim
